@@ -478,8 +478,47 @@ func runShard(root, outRoot, scratch string, p *Property, r *shardRun, tier stri
 		}
 	}
 	if r.err == "" {
+		// a panic that unwinds out of oxy's own code during a workload is an observation about oxy, not about the
+		// harness: report it as a violation of the property being exercised (key panic:<function>)
+		if fn, msg := panicInOxy(r.logPath); fn != "" {
+			r.res = &PartResult{Prop: p.ID, Part: r.part.Name, Shard: r.shard, Counters: map[string]int64{}, Maxes: map[string]int64{}, Requires: map[string]int64{}, Done: true,
+				ViolCount: 1, Violations: []Violation{{Key: "panic:" + fn, Part: r.part.Name, Case: -1, Msg: "the workload made oxy panic: " + msg + " in " + fn + " (child log kept at " + keepFile(outRoot, r.logPath, p.ID) + ")"}}}
+			return
+		}
 		r.err = sfmt("child ended without result (%v); log kept at %s", werr, keepFile(outRoot, r.logPath, p.ID))
 	}
+}
+
+// panicInOxy looks for an unrecovered Go panic in a child's log and returns the innermost non-runtime frame of the
+// panicking goroutine if that frame belongs to the oxy module.
+func panicInOxy(logPath string) (fn, msg string) {
+	b, err := os.ReadFile(logPath)
+	if err != nil {
+		return "", ""
+	}
+	lines := strings.Split(string(b), "\n")
+	for i, l := range lines {
+		if !strings.HasPrefix(l, "panic: ") {
+			continue
+		}
+		msg = strings.TrimPrefix(l, "panic: ")
+		// skip to the stack of the panicking goroutine
+		for j := i + 1; j < len(lines) && j < i+400; j++ {
+			f := strings.TrimSpace(lines[j])
+			if !strings.HasSuffix(f, ")") || strings.HasPrefix(f, "goroutine ") || strings.HasPrefix(f, "/") || strings.HasPrefix(f, "panic(") || strings.HasPrefix(f, "runtime.") || strings.HasPrefix(f, "created by") || f == "" {
+				if strings.HasPrefix(f, "goroutine ") && j > i+2 && !strings.Contains(f, "[running]") {
+					break
+				}
+				continue
+			}
+			name := f[:strings.LastIndex(f, "(")]
+			if strings.Contains(name, "github.com/vulcand/oxy/v2/") && !strings.Contains(name, "/testutils.") {
+				return strings.TrimPrefix(name, "github.com/vulcand/oxy/v2/"), msg
+			}
+			return "", ""
+		}
+	}
+	return "", ""
 }
 
 // ---------------- race log parsing ----------------
